@@ -23,6 +23,12 @@ def walk_ctx(body: list[ast.stmt], ctx: Ctx = ()) -> Iterator[tuple[ast.stmt, Ct
             yield from walk_ctx(st.orelse, ctx)
         elif isinstance(st, ast.With):
             yield from walk_ctx(st.body, ctx)
+        elif hasattr(ast, "Match") and isinstance(st, ast.Match):
+            for case in st.cases:
+                # a case arm is a conditional arm: represent its pattern as an opaque test
+                test = ast.Name(id=f"<case {ast.unparse(case.pattern)[:40]}>", ctx=ast.Load())
+                ast.copy_location(test, st)
+                yield from walk_ctx(case.body, ctx + (("if", test, True),))
         elif isinstance(st, ast.Try):
             yield from walk_ctx(st.body, ctx + (("try", st),))
             for h in st.handlers:
@@ -169,6 +175,15 @@ def rule_F(run: Run, prog: Program) -> int:
                 seen_masks.add(("acc", mask_name))
                 mexpr = ast.BoolOp(op=ast.And(), values=list(accumulated[mask_name]))
                 label = f"{mask_name} = <conjunction of {len(accumulated[mask_name])} steps>"
+            # locals used inside the filter expression stand for their defining expressions (ind = X.contains(result); result[ind & ...])
+            extra = []
+            for x in ast.walk(mexpr):
+                if isinstance(x, ast.Name) and x.id in assigns and x.id not in (var, selfn, other) and x.id != mask_name:
+                    for a_st, a_ctx in assigns[x.id]:
+                        if _ctx_compatible(a_ctx, ctx):
+                            extra.append(a_st.value)
+            if extra:
+                mexpr = ast.BoolOp(op=ast.And(), values=[mexpr] + extra)
             cc = _contains_calls(mexpr, var)
             if not isinstance(mexpr, (ast.BinOp, ast.Call, ast.UnaryOp, ast.BoolOp)):
                 run.add("E10.F1", fn.short, label, UNDECIDED, "filter expression is not a visible conjunction", loc)
@@ -222,6 +237,36 @@ def rule_F(run: Run, prog: Program) -> int:
                         and r.value.args and isinstance(r.value.args[0], ast.Name) and r.value.args[0].id == var:
                     run.add("E10.F1", fn.short, norm_stmt(r), VIOLATION,
                             f"the meet result `{var}` is returned unfiltered: points outside the polytope are returned", f"{rel}:{r.lineno}")
+        # F5: the bounded operand must not be replaced by its unbounded support while its membership test is still to come
+        def support_expr(e: ast.AST, depth: int = 0) -> bool:
+            """expression that yields the supporting line/plane of `other` (other._line, or a helper that returns <param>._line)"""
+            if isinstance(e, ast.Attribute) and e.attr in ("_line", "_plane") and isinstance(e.value, ast.Name) and e.value.id == other:
+                return True
+            if isinstance(e, ast.IfExp):
+                return support_expr(e.body, depth) or support_expr(e.orelse, depth)
+            if isinstance(e, ast.Call) and depth < 2 and any(isinstance(a, ast.Name) and a.id == other for a in e.args):
+                t = prog.resolve_expr_name(fn.module, e.func, fn)
+                helper = prog.functions.get(t) if t else None
+                if helper is None and isinstance(e.func, ast.Attribute) and fn.cls is not None:
+                    helper = prog.lookup(fn.cls, e.func.attr)
+                if helper is not None:
+                    hp = [p.arg for p in helper.params()]
+                    for r0 in walk_no_nested(helper.node):
+                        if isinstance(r0, ast.Return) and isinstance(r0.value, ast.Attribute) and r0.value.attr in ("_line", "_plane") \
+                                and isinstance(r0.value.value, ast.Name) and r0.value.value.id in hp:
+                            return True
+            return False
+
+        for st, ctx in walk_ctx(fn.node.body):
+            if isinstance(st, ast.Assign) and any(isinstance(t, ast.Name) and t.id == other for t in st.targets) and support_expr(st.value):
+                later = [x for x in walk_no_nested(fn.node) if getattr(x, "lineno", 0) > st.lineno and (
+                    (isinstance(x, ast.Call) and isinstance(x.func, ast.Attribute) and x.func.attr == "contains" and isinstance(x.func.value, ast.Name) and x.func.value.id == other)
+                    or (isinstance(x, ast.Call) and isinstance(x.func, ast.Name) and x.func.id == "isinstance" and x.args and isinstance(x.args[0], ast.Name) and x.args[0].id == other))]
+                if later:
+                    run.add("E10.F1", fn.short, norm_stmt(st), VIOLATION,
+                            f"`{norm_stmt(st)[:70]}` replaces the operand `{other}` by its unbounded supporting line/plane, but the code below still decides "
+                            f"by `{ast.unparse(later[0])[:50]}` whether to apply the segment's membership test: on this path the test is skipped (or applied "
+                            f"to the line), so points beyond the segment's ends are returned", f"{rel}:{st.lineno}")
         # F3
         for r in walk_no_nested(fn.node):
             if not (isinstance(r, ast.Return) and r.value is not None):
@@ -255,11 +300,22 @@ def rule_F(run: Run, prog: Program) -> int:
             e = h.name
             loc = f"{rel}:{st.lineno}"
 
-            def reindexed(expr: ast.AST) -> bool:
+            mask_aliases = {nm for nm, lst in assigns.items() if any(
+                any(isinstance(y, ast.Attribute) and y.attr == "dependent_values" and isinstance(y.value, ast.Name) and y.value.id == e
+                    for y in ast.walk(a.value)) for a, _c in lst)}
+
+            def reindexed(expr: ast.AST, depth: int = 0) -> bool:
                 for x in ast.walk(expr):
                     if isinstance(x, ast.Subscript):
                         for y in ast.walk(x.slice):
                             if isinstance(y, ast.Attribute) and y.attr == "dependent_values" and isinstance(y.value, ast.Name) and y.value.id == e:
+                                return True
+                            if isinstance(y, ast.Name) and y.id in mask_aliases:
+                                return True
+                    if isinstance(x, ast.Name) and x.id in assigns and x.id not in (selfn, other) and depth < 2:
+                        # a local that was itself built from re-indexed data inside this handler
+                        for a_st, a_ctx in assigns[x.id]:
+                            if any(c[0] == "except" and c[1] is h for c in a_ctx) and reindexed(a_st.value, depth + 1):
                                 return True
                 return False
 
@@ -311,7 +367,7 @@ def rule_F(run: Run, prog: Program) -> int:
                 run.add("E10.F2", fn.short, norm_stmt(st), verdict or UNDECIDED, msg, loc)
             # (ii) uses of self in meet / contains inside the handler must be re-indexed
             for x in walk_no_nested(st):
-                if isinstance(x, ast.Call) and isinstance(x.func, ast.Attribute) and x.func.attr in ("meet", "contains") and _mentions(x.func.value, selfn):
+                if isinstance(x, ast.Call) and isinstance(x.func, ast.Attribute) and x.func.attr in ("meet", "contains") and mentions_self(x.func.value):
                     lab = norm_stmt(x)
                     if reindexed(x.func.value):
                         run.add("E10.F2", fn.short, lab, PROVEN, f"receiver is re-indexed by ~{e}.dependent_values", f"{rel}:{x.lineno}")
